@@ -190,6 +190,58 @@ func runC20(c *Ctx) {
 		}
 	}
 	R.Floor("C20.R3", "un-positional append sites", nSingle, 1)
+	// the cap is the protocol's limit, not a smaller number: every large integer constant that ParseParameters (or a
+	// private function it calls) compares, clamps or saturates with is 65535 (65534 / 65536 for the strict forms), so
+	// that an index or marker count up to 65535 is reported as it is
+	{
+		nCap := 0
+		seenFn := map[*ssa.Function]bool{}
+		var scan func(fn *ssa.Function, depth int)
+		scan = func(fn *ssa.Function, depth int) {
+			if fn == nil || seenFn[fn] || fn.Blocks == nil || !c.P.InPkg(fn, "wire") {
+				return
+			}
+			seenFn[fn] = true
+			check := func(v ssa.Value, in ssa.Instruction) {
+				k, ok := core.ConstInt(v)
+				if !ok || k < 256 {
+					return
+				}
+				if bt, isB := v.Type().Underlying().(*types.Basic); !isB || bt.Info()&types.IsInteger == 0 {
+					return
+				}
+				nCap++
+				R.Check(k >= 65534 && k <= 65536, "C20.R2", sprintf("ParseParameters:cap-is-protocol-limit:%d", k), c.at(in), "the parameter count is capped at the protocol's limit of 65535, not below it: an index or marker count up to 65535 is reported unchanged", sprintf("constant %d", k), sprintf("the list is capped with the constant %d: the protocol's parameter count is an unsigned 16-bit number (65535); a $n index or '?' count between the two is under-reported and Describe announces too few parameters", k))
+			}
+			for _, b := range fn.Blocks {
+				for _, in := range b.Instrs {
+					switch x := in.(type) {
+					case *ssa.BinOp:
+						switch x.Op {
+						case token.LSS, token.LEQ, token.GTR, token.GEQ, token.EQL, token.NEQ:
+							check(x.X, x)
+							check(x.Y, x)
+						}
+					case *ssa.Phi:
+						for _, e := range x.Edges {
+							check(e, x)
+						}
+					case *ssa.Call:
+						if n := core.BuiltinName(&x.Call); n == "min" || n == "max" {
+							for _, a := range x.Call.Args {
+								check(a, x)
+							}
+						}
+						if depth > 0 {
+							scan(core.StaticCallee(x), depth-1)
+						}
+					}
+				}
+			}
+		}
+		scan(pp, 1)
+		R.Floor("C20.R2", "limit constants in ParseParameters", nCap, 1)
+	}
 	// the function returns the grown slice
 	for _, r := range returns(pp) {
 		var ls []ssa.Value
